@@ -546,6 +546,8 @@ fn array_op(item: &mut Item, f: &[&str]) -> String {
         "sortby" => {
             match f[1] {
                 "desc" => arr(item).sort_by(|a, b| val_z(b).cmp(&val_z(a))),
+                // a comparator with ties: elements with the same residue must keep their order (stable sort)
+                "mod3" => arr(item).sort_by(|a, b| val_z(a).rem_euclid(3).cmp(&val_z(b).rem_euclid(3))),
                 _ => arr(item).sort_by(|a, b| val_z(a).cmp(&val_z(b))),
             }
             "u".into()
